@@ -147,6 +147,8 @@ def conclude(pid, spec, results, tier, seed, wall, kani=(), extra_viol=()):
         all_obl += obl
         for k, m in (r.meta or {}).get('functions', {}).items():
             fn_under_contract[k] = m
+        for k in getattr(r, 'inlined', []) or []:
+            assumed.add('R18: contract-less helper inlined at its call sites (lib/inline.py): %s' % k)
         for k in (r.meta or {}).get('skipped_missing', []):
             assumed.add('item no longer in the source, skipped (no users can exist): %s' % k)
         for k, h in (r.meta or {}).get('pinned', {}).items():
